@@ -208,6 +208,27 @@ pub fn probe_runtime() -> Vec<u8> {
     c
 }
 
+/// returns (and stores in slots 1, 2) NUMBER and BLOCKHASH(NUMBER - 1): context that a simulation at the next
+/// height must predict (no timestamp, randomness, gas or txid)
+pub fn height_runtime() -> Vec<u8> {
+    cat(&[
+        &[NUMBER, DUP1],
+        &push(1),
+        &[SSTORE],
+        &push(0),
+        &[MSTORE],
+        &push(1),
+        &[NUMBER, SUB, BLOCKHASH, DUP1],
+        &push(2),
+        &[SSTORE],
+        &push(32),
+        &[MSTORE],
+        &push(64),
+        &push(0),
+        &[RETURN],
+    ])
+}
+
 /// calls `target` (calldata[0..32]) with the rest of the calldata and bubbles the result
 pub fn proxy_runtime() -> Vec<u8> {
     cat(&[
